@@ -193,6 +193,8 @@ def worker_main(tier, seed, pl, cache, extra_docs):
             batch, idx, history, v = job(pl, tier, seed, g, extra_docs)
             res = judge.run(history)
             agg['runs'] += 1
+            if agg['runs'] % 1000 == 0:
+                emit(('progress', 1000))
             agg['obs'] += res['n_obs']
             agg['compared'] += res['n_compared']
             agg['natural_exc'] += res['natural_exc']
@@ -301,8 +303,16 @@ def run_check(tier, seed):
              'sites_fired': set(), 'oracle_hits': 0, 'oracle_misses': 0, 'max_blocks': 0}
     viols = []
 
+    prog = {'n': 0, 't': time.time()}
+
     def on_frame(i, frame):
-        if frame[0] == 'violation':
+        if frame[0] == 'progress':
+            prog['n'] += frame[1]
+            if time.time() - prog['t'] > 120:       # wall clock used for the progress line only, never for a decision
+                prog['t'] = time.time()
+                print('progress: %d/%d histories, %d violations so far' % (prog['n'], pl['total'], len(viols)))
+                sys.stdout.flush()
+        elif frame[0] == 'violation':
             viols.append(frame[1])
         elif frame[0] == 'done':
             a = frame[1]
